@@ -116,6 +116,19 @@ class fgthread(threading.Thread):
         self.error_handler.close()
         self.killed = True
 
+class TailListener(http_client.Listener):
+    """ Listener for 'tail -f' and 'maintail -f': an error reported by the
+    HTTP client (cannot connect, or a status other than 200 such as the
+    404 for an unknown process name) means the action failed.
+    """
+
+    def __init__(self, ctl):
+        self.ctl = ctl
+
+    def error(self, url, error):
+        http_client.Listener.error(self, url, error)
+        self.ctl.exitstatus = LSBInitExitStatuses.GENERIC
+
 class Controller(cmd.Cmd):
 
     def __init__(self, options, completekey='tab', stdin=None,
@@ -465,7 +478,7 @@ class DefaultControllerPlugin(ControllerPluginBase):
             # homegrown client based on asyncore instead.  This makes
             # me sad.
             if self.listener is None:
-                listener = http_client.Listener()
+                listener = TailListener(self.ctl)
             else:
                 listener = self.listener # for unit tests
             handler = http_client.HTTPHandler(listener, username, password)
